@@ -5,7 +5,9 @@ import AfkakProofs.Consumer.B_C14e
 Same architecture as `B_C14a..e`.  The monitor counts consecutive failed fetch/offset requests (`cf`); the model counts
 attempts (`attempts`, starting at 1, also incremented by the immediate refetch after a success).  The invariant is
 `cf ≤ attempts`, strictly while a request or a refetch is outstanding; so when `_handle_fetch_error` /
-`_handle_offset_error` decide to retry (`attempts < limit`) the monitor's count is below the limit too.  For the
+`_handle_offset_error` decide to retry (`attempts < limit`) the monitor's count is below the limit too, and when the
+monitor's count reaches the limit so has the model's, and the failure is reported on the start Deferred (`_start_d`
+called ⇔ the monitor saw it fire).  For the
 other half (limit 0: a retry IS scheduled) the invariant says that the monitor's `running`/`shut` flags imply the model's
 `_start_d`/`_shuttingdown`, that nothing is `stopping` between events, and that no refetch timer is referenced while a
 request is outstanding.
@@ -29,6 +31,8 @@ structure Ha (cfg : Cfg) (s : St) : Prop where
   ex : (atm cfg s).expect = false
   park : s.parked.isSome = true → (atm cfg s).cf ≤ 1
   pr2 : s.parked.isSome = true → ∀ d, s.retryCall ≠ .pending d
+  called : s.startD = .called → (atm cfg s).fired = true
+  exf : (atm cfg s).expectFail = false
 
 /-- the monitor believes the consumer runs only while `_start_d` is set (up to a crash) -/
 def R (cfg : Cfg) (s : St) : Prop := s.crashed = false → (atm cfg s).running = true → s.startD ≠ .none
@@ -62,7 +66,7 @@ theorem HRel.pk {cfg : Cfg} {a b : St} (h : HRel cfg a b) (hp : a.parked = none)
 syntax "ha_fields" ident : tactic
 macro_rules
   | `(tactic| ha_fields $hs) => `(tactic|
-      (obtain ⟨a1, a2, a3, a4, a5, a6, a7, a8, a9, a10, a11, a12, a13⟩ := $hs
+      (obtain ⟨a1, a2, a3, a4, a5, a6, a7, a8, a9, a10, a11, a12, a13, a14, a15⟩ := $hs
        constructor <;> (simp only [atm, emit] at * <;> grind [C14.atStep, C14.atFail, runR_cons])))
 
 /-- `Core cfg s0 X` for an explicit update `X` of `x`, from `hx : Core cfg s0 x` -/
